@@ -536,7 +536,19 @@ def date_convention_table(fn: ast.FunctionDef):
             return defs[e.id]
         if isinstance(e, ast.Call) and isinstance(e.func, ast.Name) and e.func.id in ('max', 'min') and len(e.args) == 1:
             return e.func.id
+        # tensor forms: dates.max() / torch.max(dates) / dates.amin()
+        if isinstance(e, ast.Call) and isinstance(e.func, ast.Attribute) and e.func.attr in ('max', 'min', 'amax', 'amin') and len(e.args) <= 1:
+            return 'max' if 'max' in e.func.attr else 'min'
         return None
+
+    def any_zero(t):
+        """torch.any(dates == 0) / (dates == 0).any(): true as soon as SOME date is zero — the earliest or the most recent one"""
+        inner = None
+        if isinstance(t, ast.Call) and isinstance(t.func, ast.Attribute) and t.func.attr == 'any':
+            inner = t.args[0] if (isinstance(t.func.value, ast.Name) and t.func.value.id == 'torch' and t.args) else t.func.value
+        if isinstance(inner, ast.Compare) and len(inner.ops) == 1 and isinstance(inner.ops[0], ast.Eq) and isinstance(inner.comparators[0], ast.Constant) and inner.comparators[0].value in (0, 0.0):
+            return True
+        return False
 
     def test(t, case):
         if isinstance(t, ast.BoolOp):
@@ -544,6 +556,8 @@ def date_convention_table(fn: ast.FunctionDef):
             return all(vals) if isinstance(t.op, ast.And) else any(vals)
         if isinstance(t, ast.UnaryOp) and isinstance(t.op, ast.Not):
             return not test(t.operand, case)
+        if any_zero(t):
+            return case[0] or case[1]
         if isinstance(t, ast.Compare) and len(t.ops) == 1 and isinstance(t.comparators[0], ast.Constant) and t.comparators[0].value in (0, 0.0) and which(t.left):
             zero = case[0] if which(t.left) == 'min' else case[1]
             if isinstance(t.ops[0], ast.Eq):
@@ -555,7 +569,8 @@ def date_convention_table(fn: ast.FunctionDef):
     delegated = set()      # locals that hold the result of another function (a conversion done elsewhere and decided there)
     for st in ast.walk(fn):
         if isinstance(st, ast.Assign) and len(st.targets) == 1 and isinstance(st.targets[0], ast.Name) and isinstance(st.value, ast.Call) \
-                and not (isinstance(st.value.func, ast.Name) and st.value.func.id in ('max', 'min', 'list', 'tuple', 'float', 'len', 'sorted')):
+                and not (isinstance(st.value.func, ast.Name) and st.value.func.id in ('max', 'min', 'list', 'tuple', 'float', 'len', 'sorted')) \
+                and not (dotted_name(st.value.func) or '').split('.')[-1] in ('tensor', 'as_tensor', 'max', 'min', 'amax', 'amin'):
             delegated.add(st.targets[0].id)
 
     def classify(e):
@@ -587,8 +602,13 @@ def date_convention_table(fn: ast.FunctionDef):
             return v if listy else None
         if isinstance(st, ast.Assign) and len(st.targets) == 1:
             t = st.targets[0]
-            if isinstance(t, ast.Attribute) and t.attr == 'date':
-                return st.value
+            if isinstance(t, ast.Attribute) and t.attr in ('date', 'sampling_times'):
+                v_ = st.value
+                while isinstance(v_, ast.Call) and (dotted_name(v_.func) or '').endswith('tensor') and v_.args:
+                    v_ = v_.args[0]
+                if isinstance(v_, ast.Name) and 'height' in v_.id:
+                    return None          # a list filled element by element above: those stores are the height stores
+                return v_
             if isinstance(t, ast.Subscript) and isinstance(t.value, ast.Name) and 'height' in t.value.id:
                 return st.value
         return None
@@ -632,14 +652,20 @@ def check_date_conventions(ctx, rep):
     converts dates — the heights given to the nodes of a parsed tree and the sampling times of a time tree — must give the same answer in the four sign cases; in
     particular dates that are all ≤ 0 with the most recent one exactly 0 are heterochronous (height = −date), not 'all zero'."""
     m = ctx.prog.module('torchtree.evolution.tree_model')
+    def looks_at_dates(fn_):
+        for c in ast.walk(fn_):
+            if isinstance(c, ast.Call) and isinstance(c.func, ast.Name) and c.func.id in ('max', 'min') and c.args and 'date' in ast.unparse(c.args[0]):
+                return True
+            if isinstance(c, ast.Call) and isinstance(c.func, ast.Attribute) and c.func.attr in ('max', 'min', 'amax', 'amin', 'any') and 'date' in ast.unparse(c):
+                return True
+        return False
     fns = []
     for name, fn in m.functions.items():
-        if any(isinstance(c, ast.Call) and isinstance(c.func, ast.Name) and c.func.id in ('max', 'min') and c.args and 'date' in ast.unparse(c.args[0]) for c in ast.walk(fn)):
+        if looks_at_dates(fn):
             fns.append((name, fn))
     for cname, cnode in m.classes.items():
         for b in cnode.body:
-            if isinstance(b, ast.FunctionDef) and any(isinstance(c, ast.Call) and isinstance(c.func, ast.Name) and c.func.id in ('max', 'min') and c.args and 'date' in ast.unparse(c.args[0])
-                                                        for c in ast.walk(b)):
+            if isinstance(b, ast.FunctionDef) and looks_at_dates(b):
                 fns.append((f"{cname}.{b.name}", b))
     if len(fns) < 2:
         rep.incomplete('C06.C', '*', '', f"only {len(fns)} date-to-height conversions found in tree_model.py")
